@@ -154,6 +154,11 @@ def norm(r):
 def canon(name, r):
     """error wording dropped; order-insensitive form for replies that come out of hash maps / hash sets"""
     r = norm(r)
+    if name in STREAM_REPLIES:
+        r = sort_entry_fields(r)
+        if name == "XINFO" and r[0] == "a" and r[1] and all(x[0] == "a" for x in r[1]):
+            r = ("a", sorted(r[1], key=show))        # GROUPS / CONSUMERS: one element per group / consumer, out of a hash map
+        return r
     if name in UNORDERED:
         return sort_flat(r)
     if name in PAIRS:
@@ -178,6 +183,22 @@ def mask_times(name, args, r):
             return ("a", ys)
         return m(r)
     return r
+
+
+ID_RE = re.compile(rb"^\d+-\d+$")
+STREAM_REPLIES = {"XRANGE", "XREVRANGE", "XREAD", "XREADGROUP", "XCLAIM", "XINFO", "XAUTOCLAIM"}
+
+
+def sort_entry_fields(r):
+    """a stream entry is [id, [field, value, ...]]; the server keeps an entry's fields in a hash map, so their order differs
+    between two processes (and between two calls): compare entries with their field-value pairs sorted"""
+    if r[0] != "a":
+        return r
+    xs = [sort_entry_fields(x) for x in r[1]]
+    if len(xs) == 2 and xs[0][0] == "b" and ID_RE.match(xs[0][1]) and xs[1][0] == "a" and len(xs[1][1]) % 2 == 0 \
+            and all(y[0] == "b" for y in xs[1][1]):
+        xs[1] = sort_flat(xs[1], pairs=True)
+    return ("a", xs)
 
 
 def canon_name(name, args):
@@ -230,6 +251,10 @@ def floatarg(b):
         return None
 
 
+REBUILT = {"XADD", "XLEN", "XRANGE", "XREVRANGE", "XREAD", "XTRIM", "XDEL", "XGROUP", "XREADGROUP", "XACK", "XPENDING", "XCLAIM", "XINFO",
+           "SCAN", "HSCAN", "SSCAN", "ZSCAN"}
+
+
 def parity_cause(name, args, ra, rb, db, dump_equal, variant):
     """the cause tag of a handler/executor parity deviation, from the command and the two replies;
     None = not a deviation this check knows"""
@@ -272,16 +297,22 @@ def parity_cause(name, args, ra, rb, db, dump_equal, variant):
         return "db0-commands"
     if name in ("ZPOPMIN", "ZPOPMAX") and ra == ("na",) and not eb:
         return "zpop-missing"
-    # the executor parses these commands and re-assembles a frame for the shared handler: arguments its parser does not keep are lost
-    if name == "XREADGROUP" and b"STREAMS" in a and len(a) - a.index(b"STREAMS") - 1 >= 4 and not ea:
-        return "rebuild-lossy"          # two or more streams: re-assembled as `key id key id`
-    if name == "XREADGROUP" and b"NOACK" in a and not ea:
-        return "rebuild-lossy"
-    if name == "XCLAIM" and any(x in (b"JUSTID", b"FORCE", b"IDLE", b"TIME", b"RETRYCOUNT", b"LASTID") for x in a[5:]):
-        return "rebuild-lossy"
-    if name == "XPENDING" and len(args) == 7 and not ea:
-        return "rebuild-lossy"          # the consumer filter
-    if name == "HSCAN" and b"NOVALUES" in a[2:] and not ea:
+    # the executor parses these commands with its own parser and re-assembles a frame for the shared handler: arguments that parser
+    # does not keep are lost or reordered, and it validates before (and differently from) the handler.  Exempt: every form of
+    # these four commands EXCEPT the plain one, and HSCAN NOVALUES.  (XREAD, XADD, XRANGE, XDEL, XACK, ... are not exempt.)
+    def nonneg(b):
+        return intarg(b) is not None and 0 <= intarg(b) < 2 ** 63
+    if name == "XREADGROUP":
+        plain = len(a) in (6, 8) and a[0] == b"GROUP" and a[-3] == b"STREAMS" and (len(a) == 6 or (a[3] == b"COUNT" and nonneg(a[4])))
+        if not plain:
+            return "rebuild-lossy"      # two or more streams (re-assembled as `key id key id`), NOACK, unbalanced / odd forms
+    if name == "XPENDING" and len(args) > 3:
+        return "rebuild-lossy"          # range form: count parsed as usize before the key is looked at; the consumer filter is dropped
+    if name == "XCLAIM" and (len(args) < 6 or not nonneg(args[4]) or any(not ID_RE.match(x) for x in args[5:])):
+        return "rebuild-lossy"          # options (JUSTID, FORCE, IDLE, TIME, RETRYCOUNT) are dropped
+    if name == "XTRIM" and not (len(args) == 4 and a[1] == b"MAXLEN" and nonneg(args[3])):
+        return "rebuild-lossy"          # MAXLEN ~ n / MAXLEN = n / MINID
+    if name == "HSCAN" and b"NOVALUES" in a[2:]:
         return "rebuild-lossy"
     return None
 
@@ -751,10 +782,11 @@ def dump(c):
             fl = c.cmd("ZRANGE", k, "0", "-1", "WITHSCORES")[1]
             v = "zset " + ("|".join(hx(fl[i][1]) + "=" + hx(fl[i + 1][1]) for i in range(0, len(fl), 2)) if fl else ".")
         elif t == "stream":
-            v = "stream " + show(c.cmd("XRANGE", k, "-", "+"))
+            v = "stream " + show(sort_entry_fields(c.cmd("XRANGE", k, "-", "+")))
             gs = c.cmd("XINFO", "GROUPS", k)
             if gs[0] == "a" and gs[1]:
                 # consumer groups: cursor, counts and the pending entries (id, owner, delivery count; idle time masked)
+                gs = ("a", sorted(gs[1], key=show))
                 v += " groups " + show(norm(gs))
                 for gr in gs[1]:
                     if gr[0] == "a" and len(gr[1]) >= 2 and gr[1][1][0] == "b":
@@ -872,7 +904,9 @@ class Checker:
         if ra[0] == "e" and rb[0] == "e" and err_class(ra[1]) != err_class(rb[1]) \
                 and parity_cause(name, args, ra, rb, tw.db, True, variant) != "script-only-commands":
             rep.count("twin.error-class-differs")
-            if not self.note_known("parity:error-class", det):
+            if parity_cause(name, args, ra, rb, tw.db, True, variant) == "rebuild-lossy" and self.note_known("parity:rebuild-lossy", det):
+                pass
+            elif not self.note_known("parity:error-class", det):
                 self.fail("twin", "error class %s became %s inside a script" % (err_class(ra[1]), err_class(rb[1])), det)
         if ok_spec and not diverged:
             if not ok_code:
